@@ -96,6 +96,69 @@ class Session:
         return False
 
 
+class TransitionBatch:
+    """Collects one-transition tests and runs them grouped by pre-state: the state is re-created once
+    per group, calls that do not change it (refusals, exports) are made back to back on it, and the
+    state is re-created for every call that does change it (or after any mismatch)."""
+
+    def __init__(self, ses, exact_tags=frozenset(), label="", prologue=None, **kw):
+        self.ses = ses
+        self.exact_tags = exact_tags
+        self.label = label
+        self.kw = kw
+        self.prologue = prologue
+        self.groups = {}
+        self.n = 0
+
+    def add(self, tr):
+        steps = transition_steps(tr, self.prologue)
+        key = json.dumps(steps[:-1], sort_keys=True, separators=(",", ":"))
+        g = self.groups.get(key)
+        if g is None:
+            g = self.groups[key] = (steps[:-1], [], [])
+        last = steps[-1]
+        changes = last.get("kind") == "ok" and last["op"] not in ("export",) and last.get("pre") != last.get("post")
+        creates = last["op"] in ("setup_s", "setup_r", "raw_ctx", "single_shot_seal", "set_seq")
+        (g[2] if (changes or creates) else g[1]).append(last)
+        self.n += 1
+
+    def run(self):
+        ses = self.ses
+        for prefix, stable, changing in self.groups.values():
+            todo = list(stable)
+            while todo:
+                # one state, many calls
+                ses.n += 1
+                pfx = "g%d_" % ses.n
+                allsteps = prefix + todo
+                leaves = make_leaves(leaves_of(allsteps), seed())
+                rp = Replayer(ses.ex, leaves, exact_tags=self.exact_tags, prefix=pfx, **self.kw)
+                idx, bad = rp.run(prefix)
+                if idx is not None:
+                    ses.replay(prefix[:idx + 1], exact_tags=self.exact_tags, label=self.label + " (state setup)", **self.kw)
+                    todo = []
+                    break
+                failed_at = None
+                for i, last in enumerate(todo):
+                    bad = rp.step(last)
+                    if bad:
+                        failed_at = i
+                        break
+                    ses.check.trace_ok()
+                for nme in {pfx + st["c"] for st in allsteps if st.get("c")}:
+                    ses.ex.call({"op": "drop", "ctx": nme})
+                if failed_at is None:
+                    if stable:
+                        ses.check.sample({"behaviour": self.label, "calls": [summarise(c, e) for c, e in rp.trace[-3:]]})
+                    break
+                # report through the single-behaviour path (fresh executor confirmation), then go on
+                ses.replay(prefix + [todo[failed_at]], exact_tags=self.exact_tags, label=self.label, sample=False, **self.kw)
+                todo = todo[failed_at + 1:]
+            for last in changing:
+                ses.replay(prefix + [last], exact_tags=self.exact_tags, label=self.label, sample=False, **self.kw)
+        self.groups = {}
+
+
 def summarise(cmd, ev):
     c = {k: (v if not isinstance(v, str) or len(v) <= 40 else v[:32] + "..(%d bytes)" % (len(v) // 2))
          for k, v in cmd.items()}
